@@ -224,10 +224,11 @@ func (ww *conversionVisitor) visitObjectNode(node *sourcewalk.ObjectNode) {
 				ww.addError(node.Source, err)
 			}
 
-			if propertyDesc.GetProto3Optional() {
+			if propertyDesc.GetProto3Optional() && propertyDesc.GetLabel() != descriptorpb.FieldDescriptorProto_LABEL_REPEATED {
 				// proto3 'optional' is represented, as protoc does, by a
 				// synthetic oneof holding just this field; without it the
-				// linked field has no presence.
+				// linked field has no presence. (Arrays and maps have no
+				// presence and cannot be members of a oneof.)
 				propertyDesc.OneofIndex = gl.Ptr(int32(len(message.descriptor.OneofDecl)))
 				message.descriptor.OneofDecl = append(message.descriptor.OneofDecl, &descriptorpb.OneofDescriptorProto{
 					Name: gl.Ptr("_" + propertyDesc.GetName()),
